@@ -15,6 +15,56 @@ IDX = 'index:'
 INDEX_FILES = ('genome.pkl', 'proteome.pkl', 'coding_transcripts.pkl', 'metadata.json', 'canonical_peptides', 'annotation.gtf')
 
 
+def _resolve(f, e):
+    if isinstance(e, ast.Name):
+        r = G.resolve_local(f.node, e.id)
+        return r if r is not None else e
+    return e
+
+
+_OPT_TYPES = {}
+
+
+def _option_types(repo):
+    """dest -> declared argparse type of the cleavage options (T(args.X) is the identity when X is declared type=T)."""
+    if not _OPT_TYPES:
+        for f in repo.funcs_in('cli.common'):
+            for c in G.find_calls(f.node, 'add_argument'):
+                t = kwarg(c, 'type')
+                longs = [a.value for a in c.args if isinstance(a, ast.Constant) and str(a.value).startswith('--')]
+                if t is not None and longs:
+                    _OPT_TYPES[longs[0][2:].replace('-', '_')] = unparse(t)
+    return _OPT_TYPES
+
+
+def _conv_norm(t: str, types=None) -> str:
+    import re
+    types = types or {}
+    prev = None
+    while prev != t:
+        prev = t
+        t = re.sub(r'\b(int|float|str)\(\1\((.*)\)\)$', r'\1(\2)', t)
+        t = re.sub(r'\b(int|float|str)\(args\.(\w+)\)', lambda m: f"args.{m.group(2)}" if types.get(m.group(2)) == m.group(1) else m.group(0), t)
+    return t
+
+
+def stored_key_expr(repo, field, arg, f):
+    """Text of the value CleavageParams.__init__ stores in self.<field> when called with `arg` (resolved in f)."""
+    ini = repo.func('params:CleavageParams.__init__')
+    st = [n for n in ini.node.body if isinstance(n, ast.Assign) and unparse(n.targets[0]) == f"self.{field}"]
+    if len(st) != 1:
+        raise AnalysisError(f"anchor=params:CleavageParams.__init__: unique unconditional assignment of self.{field} not found")
+    src = unparse(_resolve(f, arg))
+
+    class Sub(ast.NodeTransformer):
+        def visit_Name(self, n):
+            if n.id == field:
+                return ast.parse(src, mode='eval').body
+            return n
+    import copy
+    return _conv_norm(unparse(Sub().visit(copy.deepcopy(st[0].value))), _option_types(repo))
+
+
 def run(chk, repo):
     chk.clauses = [
         'C12.a the pool lookup key holds exactly the six parameters that parameterise the digest (graph knobs excluded); '
@@ -62,6 +112,14 @@ def run(chk, repo):
                     same = flow.classify(f, b)[0] == 'clean' and tb == 'cleavage_params.exception'
                 else:
                     same = ta == tb
+                    if same:
+                        # the key stores T(a) where T is what CleavageParams.__init__ does to the parameter: T(a) must equal the digest argument
+                        field = 'enzyme' if p == 'rule' else p
+                        reg = stored_key_expr(repo, field, a, f)
+                        comp = _conv_norm(unparse(_resolve(f, b)), _option_types(repo))
+                        if reg != comp:
+                            same = False
+                            tb = f"{comp}' while the key stores '{reg}"
                 if not same:
                     ok = False
                     detail += f" {p}: registered with '{ta}' but computed with '{tb}';"
